@@ -95,7 +95,18 @@ def _fn_usum(xp, c, *xs):
     return out
 
 
+def _fn_uvec(xp, c, x):
+    """user total that is NOT a scalar (e.g. a pointwise log-likelihood)."""
+    return c.get("a", 0.0) + 2.0 * xp.asarray(x)
+
+
+def _fn_sqrt(xp, c, x):
+    return xp.sqrt(x)
+
+
 FN = {
+    "uvec": _fn_uvec,
+    "sqrt": _fn_sqrt,
     "id": _fn_id,
     "exp": _fn_exp,
     "affine": _fn_affine,
@@ -261,6 +272,8 @@ def _ref_value(ref: dict, env: dict, dist_sums: dict):
         return env[ref["r"]]
     if "d" in ref:
         return dist_sums[ref["d"]]
+    if "dv" in ref:
+        return dist_sums["__elem__"][ref["dv"]]
     raise ValueError(ref)
 
 
@@ -272,13 +285,14 @@ def evaluate(program: dict, valuation: dict) -> dict:
     """
     env: dict[str, np.ndarray] = {}
     dists: dict[str, dict] = {}
-    dist_sums: dict[str, float] = {}
+    dist_sums: dict[str, Any] = {"__elem__": {}}
 
     def add_dist(label, owner, spec, at_value, obs, par, per_obs, extra=0.0):
         args = {k: _ref_value(r, env, dist_sums) for k, r in spec["args"].items()}
         lp = np.asarray(logpdf(spec["fam"], args, at_value) + extra, dtype=np.float64)
         dists[label] = {"owner": owner, "logp": lp, "obs": obs, "par": par, "per_obs": per_obs}
         dist_sums[label] = float(lp.sum())
+        dist_sums["__elem__"][label] = lp
 
     for it in program["items"]:
         k = it["k"]
@@ -322,14 +336,18 @@ def evaluate(program: dict, valuation: dict) -> dict:
     user = program.get("user") or {}
     for key, u in user.items():
         args = [_ref_value(r, env, dist_sums) for r in u["args"]]
-        tot[key] = float(FN[u["fn"]](np, _consts(u), *args))
-        scale[key] = float(sum(np.abs(np.asarray(a)).sum() * (i + 2.0) for i, a in enumerate(args)) + abs(u.get("consts", {}).get("a", 0.0)))
+        if u.get("as_value"):
+            tot[key] = np.asarray(f64(u["value"]))
+        else:
+            tot[key] = np.asarray(FN[u["fn"]](np, _consts(u), *args), dtype=np.float64)
+        scale[key] = float(sum(np.abs(np.asarray(a)).sum() * (i + 2.0) for i, a in enumerate(args)) + np.abs(tot[key]).sum())
     decomposable = (not user) and all(d["owner"] is not None and (d["obs"] != d["par"]) for d in dists.values())
     return {
         "dists": dists,
-        "log_prob": float(tot["log_prob"]),
-        "log_lik": float(tot["log_lik"]),
-        "log_prior": float(tot["log_prior"]),
+        # scalars, except for user-supplied nodes, which are forwarded with their shape
+        "log_prob": np.asarray(tot["log_prob"], dtype=np.float64),
+        "log_lik": np.asarray(tot["log_lik"], dtype=np.float64),
+        "log_prior": np.asarray(tot["log_prior"], dtype=np.float64),
         "scale": {k: float(v) for k, v in scale.items()},
         "decomposable": decomposable,
         "values": env,
@@ -380,11 +398,13 @@ def euler_walk(sizes: list[int]) -> list[tuple[int, int]]:
 def star_walk(sizes: list[int]) -> dict[str, list[tuple[int, int]]]:
     """Short walk for the structural product: with auto-update every coordinate is set to
     its value 1, then with manual update() every coordinate to its last value (2 if it
-    has three). 2k assignments; all but the first start from a non-initial state."""
+    has three), then with targeted updates every coordinate back to 0. 3k assignments;
+    all but the first start from a non-initial state."""
     k = len(sizes)
     return {
         "auto": [(i, 1) for i in range(k) if sizes[i] > 1],
         "manual": [(i, sizes[i] - 1) for i in reversed(range(k)) if sizes[i] > 1],
+        "targeted": [(i, 0) for i in range(k) if sizes[i] > 1],
     }
 
 
@@ -491,6 +511,25 @@ def skeletons() -> dict[str, dict]:
         ],
         "canon": ["par", "par", "par", "obs"],
     }
+    # shared CACHED intermediates feeding two distributions
+    sk["SH2"] = {
+        "items": [
+            strong("b", MU, N(C(0.0), C(4.0))),
+            weak("mu_w", "affine", [R("b")], {"a": 0.5, "b": -2.0}),
+            strong("y1", Y3, N(R("mu_w"), C(1.5))),
+            strong("y2", [[1.0, -0.25, 0.5], [0.0, 2.0, -1.5]], N(R("mu_w"), C(0.75), pos=True)),
+        ],
+        "canon": ["par", "obs", "obs"],
+    }
+    sk["SHsd"] = {
+        "items": [
+            strong("tau", TAU, scale_prior("InverseGamma")),
+            weak("sd", "sqrt", [R("tau")], wrap="calc"),
+            strong("bb", [0.5, -0.75, 1.25], N(C(0.0), R("sd"))),
+            strong("aa", BETA2, N(C(0.25), R("sd"))),
+        ],
+        "canon": ["par", "par", "par"],
+    }
     for nm, K, rk in (("MVNd", K3_DEF, 2), ("MVNf", K3_FULL, 3)):
         sk[nm] = {
             "items": [
@@ -513,7 +552,10 @@ def instantiate(label, sk, flags, per_obs, walk, user=None):
     for j, i in enumerate(dist_items(items)):
         items[i]["flag"] = flags[j]
         items[i]["per_obs"] = bool(per_obs[j])
-    return {"label": label, "kind": "gb", "items": items, "user": user or {}, "walk": walk,
+    # the targeted-update mode depends on the graph shape, not on flags/per_obs: it runs
+    # for canonical programs and for every program with shared cached intermediates
+    targeted = walk != "star" or label.split("/")[0] in ("SH2", "SHsd")
+    return {"label": label, "kind": "gb", "items": items, "user": user or {}, "walk": walk, "targeted": targeted,
             "base": f"{label.split('/')[0]}/{''.join(f[0] for f in flags)}"}
 
 
@@ -548,7 +590,7 @@ def family_B(tier):
     progs = []
 
     def add(label, items, walk="euler3", user=None, base=None, kind="gb", **extra):
-        progs.append({"label": label, "kind": kind, "items": items, "user": user or {}, "walk": walk, "base": base or label, **extra})
+        progs.append({"label": label, "kind": kind, "items": items, "user": user or {}, "walk": walk, "targeted": True, "base": base or label, **extra})
 
     # B1: a Dist that belongs to no variable, `at` set by hand
     for at_kind in ("var", "value", "calc"):
@@ -636,11 +678,30 @@ def family_B(tier):
                         elif kind == "dists":
                             user[key] = {"fn": "usum", "args": [{"d": "y"}, {"d": "sigma"}][j % 2:], "consts": {"a": -1.0 * j}}
                         else:
-                            user[key] = {"fn": "usum", "args": [], "consts": {"a": -3.5 - j}, "as_value": True}
+                            user[key] = {"fn": "usum", "args": [], "consts": {"a": -3.5 - j}, "as_value": True, "value": -3.5 - j}
                     p = instantiate(f"B5/{'+'.join(k[4:] for k in subset)}/{kind}/{''.join('TF'[not x] for x in po)}", sk, sk["canon"], po,
                                     "euler3" if all(po) else "star", user=user)
                     p["base"] = f"B5/{'+'.join(k[4:] for k in subset)}/{kind}"
                     progs.append(p)
+
+    # B5v: NON-SCALAR user nodes (pointwise log-likelihood etc.) must be forwarded unchanged
+    for subset in (("log_lik",), ("log_prior",), ("log_prob",), keys):
+        for kind in ("vec_values", "vec_dist", "vec_const", "mat_const"):
+            for po in ((True, True, True), (False, False, True)):
+                user = {}
+                for j, key in enumerate(subset):
+                    if kind == "vec_values":
+                        user[key] = {"fn": "uvec", "args": [R("y")], "consts": {"a": 0.5 + j}}
+                    elif kind == "vec_dist":
+                        user[key] = {"fn": "uvec", "args": [{"dv": "y"}], "consts": {"a": -1.0 * j}}
+                    elif kind == "vec_const":
+                        user[key] = {"fn": "id", "args": [], "as_value": True, "value": [-1.5 - j, 0.25, -3.0]}
+                    else:
+                        user[key] = {"fn": "id", "args": [], "as_value": True, "value": [[-1.5 - j, 0.25], [-3.0, -0.5]]}
+                lab = f"B5v/{'+'.join(k[4:] for k in subset)}/{kind}/{''.join('TF'[not x] for x in po)}"
+                p = instantiate(lab, sk, sk["canon"], po, "star" if (len(subset) == 1 and not all(po)) else "euler2", user=user)
+                p["base"] = f"B5v/{'+'.join(k[4:] for k in subset)}/{kind}"
+                progs.append(p)
 
     # B6: hyper-parameters given as python constants / lsl.Value / lsl.Var without distribution
     for hyp in ("value", "var"):
@@ -680,7 +741,7 @@ def distreg_programs(tier):
                 items = distreg_items(dr)
                 nstrong = sum(1 for it in items if it["k"] == "strong" and len(it["lattice"]) > 1)
                 walk = "euler3" if nstrong <= 3 else ("euler2" if nstrong <= 5 else "star")
-                progs.append({"label": label, "kind": "distreg", "distreg": dr, "items": items, "user": {}, "walk": walk, "base": label})
+                progs.append({"label": label, "kind": "distreg", "distreg": dr, "items": items, "user": {}, "walk": walk, "targeted": True, "base": label})
     return progs
 
 
